@@ -17,6 +17,9 @@ from . import c05
 INVERSE = {"posix": "local", "str": "int", "iso": "date", None: None}
 
 
+LOSSY_STR_METHODS = {"lower", "upper", "casefold", "strip", "lstrip", "rstrip", "title", "capitalize", "swapcase", "expandtabs", "zfill"}
+
+
 # ---------------------------------------------------------------------- reader table
 def reader_rows(p, rd):
     """{(context class, tag, source)} -> (class, field, conv) from the event-driven manifest reader.
@@ -47,11 +50,23 @@ def reader_rows(p, rd):
             if nm.endswith("parser.parse") and e.args:
                 s = src_of(e.args[0], depth + 1)
                 return (s[0], "date") if s else None
+            # value-changing string methods: recognised as harmful (case folding / trimming loses what was written)
+            if isinstance(e.func, ast.Attribute) and e.func.attr in LOSSY_STR_METHODS:
+                s = src_of(e.func.value, depth + 1)
+                if s and not (s[1] or "").startswith("unrecognised:"):
+                    return (s[0], "lossy:" + e.func.attr + "()")
         if isinstance(e, ast.IfExp):
             s = src_of(e.body, depth + 1)
             o = e.orelse
             if s and isinstance(o, ast.Constant) and o.value is None:
                 return s
+            so = src_of(o, depth + 1)
+            if s and so and so[0] == s[0] and so[1] is None and norm(e.test) == norm(o):
+                return s  # `f(x) if x else x`
+        if isinstance(e, ast.Subscript) and isinstance(e.slice, ast.Slice):
+            s = src_of(e.value, depth + 1)
+            if s and not (s[1] or "").startswith("unrecognised:"):
+                return (s[0], "lossy:slice")
         if isinstance(e, ast.Subscript) and norm(e.value) == "element.attrib" and isinstance(e.slice, ast.Constant):
             return ("@" + e.slice.value, None)
         if isinstance(e, ast.Name) and e.id in locals_src:
@@ -307,7 +322,7 @@ def run(report, p):
                 if same_field and inv_ok:
                     okf = True
             got = [(a, b, c) for a, b, c, _ in rr]
-            r1.check(okf, func, node, f"the writer emits {desc} but the reader assigns {got}: written and re-read values differ (wrong field or missing inverse conversion)", construct=f"row mismatch {desc} vs {got}")
+            r1.check(okf, func, node, f"the writer emits {desc} but the reader assigns {got}: written and re-read values differ (wrong field, missing inverse conversion, or a value-changing conversion such as case folding / trimming)", construct=f"row mismatch {desc} vs {got}")
     # reader rows without a writer counterpart are harmless (backward compatibility), but each format-entry row must exist
     for need_key in (("MHLMediaHash", "<format>/file", "tag"), ("MHLMediaHash", "<format>/file", "text"), ("MHLMediaHash", "<format>/file", "@action"), ("MHLMediaHash", "<format>/file", "@hashdate"), ("MHLMediaHash", "<format>/dir-content", "text"), ("MHLMediaHash", "<format>/dir-structure", "text"), ("MHLMediaHash", "path", "@size"), ("MHLMediaHash", "previousPath", "text")):
         r1.check(need_key in rrows, rd, rd.node, f"the reader has no assignment for {need_key}", construct=f"reader row {need_key}")
@@ -391,7 +406,7 @@ def run(report, p):
         r5.check(okenc, w, w.node, "text is not encoded as UTF-8 when written", construct=f"{w.name}: encode")
         for c, tg in p.calls[w.qual]:
             if "builtin:open" in tg:
-                r5.check(open_mode(p, c, w) == "wb", w, c, "the output file is not opened in binary mode")
+                r5.check("b" in (open_mode(p, c, w) or ""), w, c, "the output file is not opened in binary mode")
     for r in (rd, crd):
         r5.instance(r, r.node, r.qual)
         for c, tg in p.calls[r.qual]:
